@@ -8,7 +8,7 @@ from ..core import Sub, build_machine, run_history
 PROP = {
     "id": "C16",
     "level": "exploration",
-    "technique": "Hypothesis RuleBasedStateMachine over Data3D / ForceTorque3D / EMG: add-track and assign-track-list calls with right-length, wrong-length and wrong-kind elements at generated positions; model = the expected list of track objects (identity); invariant after every step",
+    "technique": "Hypothesis RuleBasedStateMachine over Data3D / ForceTorque3D / EMG: add-track and assign-track-list calls with right-length, wrong-length and wrong-kind elements at generated positions; model = the expected list of track objects (identity); invariant after every step; enumerated refusal matrix: every kind of invalid element (incl. unprintable / uninitialised objects, another block as the iterable) x position x container",
     "level_text": ("Exploration of call histories: the machine interleaves valid and invalid add_track/addSignal calls with whole-list "
                    "assignments whose iterable (list, tuple, generator, generator that raises, the block's own list, a non-iterable) "
                    "carries invalid elements at the first, a middle, the last or several positions; lazily evaluated views of the block's own list "
